@@ -1,6 +1,9 @@
 (* C11 - property theorems only. *)
 From Coq Require Import ZArith List Bool Lia ZifyBool Arith.
-From NV.C11 Require Import Model Proofs Proofs2.
+From Coq Require Import QArith.
+From NV.Generated Require Import GridHash.
+From NV.C11 Require Import Model Proofs Proofs2 ModelQ Proofs3 Proofs4.
+Close Scope Q_scope.
 Import ListNotations.
 Open Scope Z_scope.
 
@@ -16,20 +19,19 @@ Theorem sp_certificate_sound :
 Proof. exact sp_check_sound. Qed.
 Print Assumptions sp_certificate_sound.
 
-(* Partial completeness: on a well-formed non-negative graph the true distance
-   vector always passes the seed and edge (triangle / inf-closed) conditions.
-   MISSING for full completeness: that V closure rounds over tight edges reach
-   every finite vertex (needs a pigeonhole argument on simple paths); the
-   harness measures it instead (checker verdict = brute-force verdict on every
-   case). *)
-Theorem sp_certificate_local_complete_partial :
+(* Completeness, for ALL well-formed non-negative graphs: the true distance
+   vector always passes the check (so the check accepts exactly the distance
+   function: V closure rounds over tight edges reach every finite vertex -
+   either a round adds nothing, and the set is closed, or V rounds have added V
+   vertices). *)
+Theorem sp_certificate_complete :
   forall V E seeds d, length d = V ->
   (forall e, In e E -> 0 <= ew e /\ (esrc e < V)%nat /\ (edst e < V)%nat) ->
   (forall s, In s seeds -> (s < V)%nat) ->
   is_sp_dist E seeds (getd d) ->
-  forallb (seed_ok V d) seeds = true /\ forallb (edge_ok V d) E = true.
-Proof. exact sp_local_complete. Qed.
-Print Assumptions sp_certificate_local_complete_partial.
+  sp_check V E seeds d = true.
+Proof. exact sp_check_complete_lemma. Qed.
+Print Assumptions sp_certificate_complete.
 
 (* The dijkstra model (code as written) is NOT proved correct outright - it is
    in fact wrong on parallel edges (below).  What holds for every input: when
@@ -68,6 +70,13 @@ Theorem cc_certificate_sound :
   forall V E lab, cc_check V E lab = true -> is_cc_labelling V E (getl lab).
 Proof. exact cc_check_sound. Qed.
 Print Assumptions cc_certificate_sound.
+
+Theorem cc_certificate_complete :
+  forall V E lab, length lab = V ->
+  (forall e, In e E -> (esrc e < V)%nat /\ (edst e < V)%nat) ->
+  is_cc_labelling V E (getl lab) -> cc_check V E lab = true.
+Proof. exact cc_check_complete_lemma. Qed.
+Print Assumptions cc_certificate_complete.
 
 Theorem cc_certificate_fast_sound :
   forall V E lab n, cc_check_fast V E lab n = true -> is_cc_labelling V E (getl lab).
@@ -128,21 +137,54 @@ Proof.
 Qed.
 Print Assumptions knn_ties_fewer_than_k_refuted.
 
-(* graph_3d_grid hashing, for ALL coordinate sets: with m = 3*sum(max)+2 and
-   lattice differences bounded by the per-axis maxima, each of the 13 hashing
-   rows (6/18/26 systems) hits its l1dist exactly on its own lattice step, no
+(* graph_3d_grid hashing, for ALL coordinate sets.  The multiplier m and the 13
+   hashing rows with their l1dist are TRANSLATED from the current graph.py
+   (Generated/GridHash.v: src_grid_m, src_grid_rows).  For every source row
+   there is a lattice step `dir` (L-inf norm 1, L1 norm l1dist) such that, with
+   m = src_grid_m (sum of the per-axis maxima) and differences bounded by the
+   maxima: the hash difference equals l1dist exactly on that step, no
    difference hashes strictly between 0 and l1dist (so the two points are
    consecutive in the sorted hash order), and the hash is injective. *)
+Theorem grid_source_is_model :
+  src_grid_rows = map (fun t => (fst (fst t), snd (fst t))) grid_rows /\
+  forall S, src_grid_m S = 3 * S + 2.
+Proof. split; [vm_compute; reflexivity|intros S; unfold src_grid_m; ring]. Qed.
+Print Assumptions grid_source_is_model.
+
 Theorem grid_hash_detects_exactly_the_neighbour_steps :
-  forall r l dir, In (r, l, dir) grid_rows ->
-  forall Mx My Mz dx dy dz,
-    Z.abs dx <= Mx -> Z.abs dy <= My -> Z.abs dz <= Mz ->
-    let m := 3 * (Mx + My + Mz) + 2 in
-    (ghash m r (dx, dy, dz) = l <-> (dx, dy, dz) = dir) /\
-    ~ (0 < ghash m r (dx, dy, dz) < l) /\
-    (ghash m r (dx, dy, dz) = 0 <-> (dx, dy, dz) = (0, 0, 0)).
-Proof. exact grid_hash_correct. Qed.
+  forall r l, In (r, l) src_grid_rows ->
+  exists dir : z3,
+    (let '(a, b, c) := dir in Z.max (Z.abs a) (Z.max (Z.abs b) (Z.abs c)) = 1 /\ Z.abs a + Z.abs b + Z.abs c = l) /\
+    forall Mx My Mz dx dy dz,
+      Z.abs dx <= Mx -> Z.abs dy <= My -> Z.abs dz <= Mz ->
+      let m := src_grid_m (Mx + My + Mz) in
+      (ghash m r (dx, dy, dz) = l <-> (dx, dy, dz) = dir) /\
+      ~ (0 < ghash m r (dx, dy, dz) < l) /\
+      (ghash m r (dx, dy, dz) = 0 <-> (dx, dy, dz) = (0, 0, 0)).
+Proof.
+  intros r l Hin. destruct grid_source_is_model as [Hrows Hm]. rewrite Hrows in Hin.
+  apply in_map_iff in Hin. destruct Hin as [[[r0 l0] dir] [Heq Hin]]. simpl in Heq. inversion Heq; subst r0 l0.
+  exists dir. split.
+  - assert (G : forallb (fun t => let '(_, l, (a, b, c)) := t in
+             (Z.max (Z.abs a) (Z.max (Z.abs b) (Z.abs c)) =? 1) && (Z.abs a + Z.abs b + Z.abs c =? l)) grid_rows = true)
+      by (vm_compute; reflexivity).
+    rewrite forallb_forall in G. specialize (G _ Hin). cbv beta iota in G.
+    destruct dir as [[a b] c]. apply andb_true_iff in G. destruct G as [G1 G2]. split; lia.
+  - intros Mx My Mz dx dy dz Hx Hy Hz. cbv zeta. rewrite Hm.
+    exact (grid_hash_correct r l dir Hin Mx My Mz dx dy dz Hx Hy Hz).
+Qed.
 Print Assumptions grid_hash_detects_exactly_the_neighbour_steps.
+
+(* with both orientations the 13 steps are exactly the 26 non-zero offsets of {-1,0,1}^3,
+   6 of L1 norm 1, 12 of norm 2, 8 of norm 3 *)
+Example grid_steps_are_the_26_offsets :
+  let dirs := map (fun t => snd t) grid_rows in
+  let both := dirs ++ map (fun d => let '(a, b, c) := d in (- a, - b, - c)) dirs in
+  length both = 26%nat /\
+  forallb (fun a => forallb (fun b => forallb (fun c =>
+     Bool.eqb (existsb (z3_eqb (a, b, c)) both) (negb ((a =? 0) && (b =? 0) && (c =? 0))))
+     [-1; 0; 1]) [-1; 0; 1]) [-1; 0; 1] = true.
+Proof. vm_compute. split; reflexivity. Qed.
 
 (* the 13 steps are, up to sign, all 26 neighbour offsets: 3 + 6 + 4, L-inf norm 1, L1 norm = l1dist *)
 Example grid_rows_cover_half_of_26 :
@@ -150,6 +192,66 @@ Example grid_rows_cover_half_of_26 :
   forallb (fun t => let '(_, l, (a, b, c)) := t in
              (Z.max (Z.abs a) (Z.max (Z.abs b) (Z.abs c)) =? 1) && (Z.abs a + Z.abs b + Z.abs c =? l)) grid_rows = true.
 Proof. vm_compute. split; reflexivity. Qed.
+
+(* ---- structural operations: weighted-adjacency-matrix semantics -------- *)
+(* qadj E u v is entry (u,v) of to_coo_matrix().toarray() (parallel edges add
+   up); weights are rationals; all statements are for ALL edge lists. *)
+Theorem symmeterize_adjacency :
+  forall V E u v, (u < V)%nat -> (v < V)%nat ->
+  (qadj (symmeterize_model V E) u v == (qadj E u v + qadj E v u) / 2)%Q.
+Proof. intros V E u v Hu Hv. unfold symmeterize_model. rewrite qadj_mat_edges by assumption. apply Qred_correct. Qed.
+Print Assumptions symmeterize_adjacency.
+
+Theorem anti_symmeterize_adjacency :
+  forall V E u v, (u < V)%nat -> (v < V)%nat ->
+  (qadj (anti_symmeterize_model V E) u v == (qadj E u v - qadj E v u) / 2)%Q.
+Proof. intros V E u v Hu Hv. unfold anti_symmeterize_model. rewrite qadj_mat_edges by assumption. apply Qred_correct. Qed.
+Print Assumptions anti_symmeterize_adjacency.
+
+Theorem cut_redundancies_adjacency :
+  forall V E u v, (u < V)%nat -> (v < V)%nat ->
+  (qadj (cut_redundancies_model V E) u v == qadj E u v)%Q.
+Proof. intros V E u v Hu Hv. unfold cut_redundancies_model. rewrite qadj_mat_edges by assumption. apply Qred_correct. Qed.
+Print Assumptions cut_redundancies_adjacency.
+
+(* edge lists rebuilt from a matrix hold each vertex pair at most once, in
+   range, with the matrix entry as weight and no stored zero *)
+Theorem matrix_edge_list_entries :
+  forall V M e, In e (mat_edges V M) ->
+  (qsrc e < V)%nat /\ (qdst e < V)%nat /\ qw e = M (qsrc e) (qdst e) /\ ~ (qw e == 0)%Q.
+Proof. exact mat_edges_entries. Qed.
+Print Assumptions matrix_edge_list_entries.
+
+Theorem remove_trivial_edges_adjacency :
+  forall E u v, (qadj (remove_trivial_model E) u v == if Nat.eqb u v then 0 else qadj E u v)%Q.
+Proof. exact qadj_remove_trivial. Qed.
+Print Assumptions remove_trivial_edges_adjacency.
+
+Theorem concatenate_graphs_adjacency :
+  forall V1 E1 E2 u v, (forall e, In e E1 -> (qsrc e < V1)%nat /\ (qdst e < V1)%nat) ->
+  Qeq (qadj (concatenate_model V1 E1 E2) u v)
+      (if (u <? V1)%nat && (v <? V1)%nat then qadj E1 u v
+       else if (V1 <=? u)%nat && (V1 <=? v)%nat then qadj E2 (u - V1) (v - V1) else 0%Q).
+Proof. exact qadj_concatenate. Qed.
+Print Assumptions concatenate_graphs_adjacency.
+
+(* subgraph: the retained vertices are renumbered by rank (strictly increasing,
+   hence injective, onto 0..p-1) and the adjacency is the induced sub-matrix *)
+Theorem subgraph_adjacency :
+  forall valid E u v, isvalid valid u = true -> isvalid valid v = true ->
+  (qadj (subgraph_model valid E) (rank valid u) (rank valid v) == qadj E u v)%Q.
+Proof. exact qadj_subgraph. Qed.
+Print Assumptions subgraph_adjacency.
+
+Theorem subgraph_renumbering_increasing :
+  forall valid u v, (u < v)%nat -> isvalid valid u = true -> (rank valid u < rank valid v)%nat.
+Proof. exact rank_lt. Qed.
+Print Assumptions subgraph_renumbering_increasing.
+
+Example symmeterize_example :
+  symmeterize_model 3 [(0%nat, 1%nat, 1%Q); (1%nat, 2%nat, 0%Q); (2%nat, 0%nat, 2%Q); (0%nat, 0%nat, 1%Q)]
+  = [(0%nat, 0%nat, 1%Q); (0%nat, 1%nat, (1 # 2)%Q); (0%nat, 2%nat, 1%Q); (1%nat, 0%nat, (1 # 2)%Q); (2%nat, 0%nat, 1%Q)].
+Proof. vm_compute. reflexivity. Qed.
 
 (* ---- non-vacuity ---------------------------------------------------- *)
 Example sp_check_accepts_example :
